@@ -47,6 +47,15 @@ CHECKS = {
             "lookups. Exploration.",
             "Trusts the ownership/artefact prediction (my reading of the statement) and the serialize+load state copy.",
             "DESIGN.md §3 C08"),
+    "C09": ("fault-injection property testing: Hypothesis-generated topology programs with fault calls at random "
+            "positions; model snapshot before vs after every raising call",
+            "Programs interleave building calls with calls whose rejected argument sits at every position (k-th "
+            "interface of a service, a bad property among good ones, j-th port of a compound facility/switch call, "
+            "missing k-th interface of a link, duplicate names/ids ...); after ANY raising call the extracted model "
+            "and a bystander graph must equal the pre-call snapshot. Fault positions are sampled, not enumerated "
+            "exhaustively.",
+            "Trusts the canonical snapshot (storage.extract_graph) as the observation of 'the model'.",
+            "DESIGN.md §3 C09"),
     "C11": ("property-based testing (Hypothesis): generated slice descriptions built in several creation orders, "
             "attributes compared with a direct tally of the description and across orders / sources",
             "Each generated slice (nodes, components, facilities, services incl. external and port-mirror services "
@@ -145,6 +154,8 @@ CHECKS = {
 
 }
 
+LEVELS = {"C09": "fault_enumeration"}
+
 NOT_APPLICABLE = {}   # id -> reason
 
 
@@ -162,7 +173,7 @@ def main():
             "evidence_file": f"evidence/{pid}.json",
             "replay_cmd_template": f"./check {pid} --replay {{path}}",
             "engine": "fimverif",
-            "level_claimed": {"category": "exploration", "text": text, "design_ref": ref},
+            "level_claimed": {"category": LEVELS.get(pid, "exploration"), "text": text, "design_ref": ref},
             "level_note": note,
             "technique": tech,
         })
